@@ -10,12 +10,22 @@ import "slices"
 // of validator indexes and returns a permutation of it.
 var VerifReplayOrder func(category int, idx []uint16) []uint16
 
-// verifReplay delivers the cached payloads category by category (the same
-// category order as the loops in initializeConsensus) in a harness-chosen order
-// instead of Go's randomized map order, removing each from its map so that the
-// original loops have nothing left to iterate over.
+// verifReplay delivers cached payloads category by category (the same category
+// order as the loops in initializeConsensus) in a harness-chosen order instead
+// of Go's randomized map order, removing each from its map. Only the categories
+// up to the last one holding more than one payload are handled here: iterating
+// over a map with at most one entry is deterministic, so the trailing
+// categories are left to the original loops, which then run under verification
+// exactly as they do in a regular build.
 func (d *DBFT[H]) verifReplay(msgs *inbox[H]) {
-	for cat, mp := range []map[uint16]ConsensusPayload[H]{msgs.prepare, msgs.chViews, msgs.preCommit, msgs.commit} {
+	cats := []map[uint16]ConsensusPayload[H]{msgs.prepare, msgs.chViews, msgs.preCommit, msgs.commit}
+	last := -1
+	for cat, mp := range cats {
+		if len(mp) > 1 {
+			last = cat
+		}
+	}
+	for cat, mp := range cats[:last+1] {
 		keys := make([]uint16, 0, len(mp))
 		for k := range mp {
 			keys = append(keys, k)
